@@ -358,7 +358,7 @@ REQ_CLASSES = ("plain", "cookies", "upper", "connhdr", "te_trailers", "empty_val
                "host_only", "nocl", "cl_short", "cl_long", "cl_short_mid")
 RESP_CLASSES = ("plain", "setcookies", "upper", "connhdr", "crlf_value", "lf_value", "nul_value", "nocl", "cl_short",
                 "cl_long", "status204_body", "dup_status", "bad_status")
-BODIES = ("none", "data", "trailers")
+BODIES = ("none", "data", "trailers", "trailers_only")  # trailers_only: empty body + trailers (e.g. a gRPC reply without messages)
 H1_ONLY_OK = {"req": {"plain", "cookies", "upper", "connhdr", "te_trailers", "empty_value", "space_path", "nocl"},
               "resp": {"plain", "setcookies", "upper", "connhdr", "nocl"}}
 NEEDS_BODY = {"nocl", "cl_short", "cl_long", "cl_short_mid", "status204_body"}
@@ -374,9 +374,9 @@ CHUNKS = (b"he", b"llo")
 def applicable(direction: str, frm: str, cls: str, body: str) -> bool:
     if frm == "h1" and cls not in H1_ONLY_OK[direction]:
         return False
-    if cls in NEEDS_BODY and body == "none":
+    if cls in NEEDS_BODY and body in ("none", "trailers_only"):
         return False
-    if cls in ("cl_short", "cl_long", "cl_short_mid", "status204_body") and body == "trailers":
+    if cls in ("cl_short", "cl_long", "cl_short_mid", "status204_body") and body in ("trailers", "trailers_only"):
         return False
     return True
 
@@ -402,8 +402,8 @@ def _tok(rnd, lo=1, hi=12) -> bytes:
 def build(direction: str, frm: str, cls: str, body: str, rnd=None):
     """-> dict(head=[(n,v)], chunks=[..], trailers=[(n,v)], h1_start=bytes, h1_framing=str).
     rnd: vary the concrete strings, sizes and chunking, and add the fields of a second, harmless class."""
-    chunks = list(CHUNKS) if body != "none" else []
-    trailers = [(b"x-t", b"1")] if body == "trailers" else []
+    chunks = list(CHUNKS) if body in ("data", "trailers") else []
+    trailers = [(b"x-t", b"1")] if body in ("trailers", "trailers_only") else []
     if rnd is not None and chunks:
         chunks = [bytes(rnd.randrange(256) for _ in range(rnd.choice([1, 2, 7, 40, 300]))) for _ in range(rnd.randint(1, 3))]
     if rnd is not None and trailers:
